@@ -27,7 +27,7 @@ if [ -n "$CHECKS" ]; then
   # run the named checks against this scratch tree (patch applied), without touching /repo
   B=/var/tmp/mcbuild-$P-$N-$$; mkdir -p $B/out
   rm -f $W/zz_demo_test.go
-  for c in $CHECKS; do echo "== check $c with change"; (cd /verif && MC_REPO=$W MC_BUILD=$B MC_VERIF_OUT=$B/out ./mc.sh check $c --tier ${TIER:-quick} 2>&1 | grep -E "violation key|VIOLATION|KNOWN|exhaustive|HARNESS|not a verdict" | cut -c1-260 | head -40); done
+  for c in $CHECKS; do echo "== check $c with change"; (cd /verif && MC_REPO=$W MC_BUILD=$B MC_VERIF_OUT=$B/out ./mc.sh check $c --tier ${TIER:-quick} ${BUDGET:+--budget $BUDGET} 2>&1 | grep -E "violation key|VIOLATION|KNOWN|exhaustive|HARNESS|not a verdict" | cut -c1-260 | head -40); done
   rm -rf $B
 fi
 cd /; git -C /repo worktree remove --force $W
